@@ -1071,7 +1071,12 @@ def c09_forms():
             # finishing through return, at top level as well as inside a function
             ("return", ret(bin_("+", N("gx"), I(1)))), ("return-in-if", iff(bin_("<", N("gx"), I(999)), ret(I(5)))), ("return-in-for", fr(["w"], [call("fromto", I(0), I(3))], ret(N("w")))),
             ("return-in-while", wh(Bo(True), ret(bin_("*", N("gx"), I(7))))), ("return-mid-block", block([I(1), ret(lst([N("gx")])), I(3)])),
-            ("return-in-nested-for", fr(["w"], [call("fromto", I(0), I(2))], fr(["u"], [call("fromto", I(5), I(8))], ret(bin_("+", N("w"), N("u"))))))]
+            ("return-in-nested-for", fr(["w"], [call("fromto", I(0), I(2))], fr(["u"], [call("fromto", I(5), I(8))], ret(bin_("+", N("w"), N("u")))))),
+            # return directly from the body of a loop over several iterators: every one of its contexts goes
+            ("return-in-for2", fr(["w", "u"], [call("fromto", I(0), I(3)), call("fromto", I(5), I(9))], ret(bin_("+", N("w"), N("u"))))),
+            ("return-in-if-in-for3", fr(["w", "u", "z"], [call("fromto", I(0), I(4)), call("fromto", I(10), I(14)), call("fromto", I(20), I(24))], iff(bin_("==", N("w"), I(1)), ret(bin_("+", N("u"), N("z")))))),
+            ("return-in-for2-in-for", fr(["h"], [call("fromto", I(0), I(2))], fr(["w", "u"], [call("fromto", I(0), I(3)), call("fromto", I(5), I(9))], iff(bin_("==", N("u"), I(6)), ret(lst([N("h"), N("w"), N("u")])))))),
+            ("return-in-for-in-for2", fr(["w", "u"], [call("fromto", I(0), I(3)), call("fromto", I(5), I(9))], fr(["h"], [call("fromto", I(0), I(2))], iff(bin_("==", N("u"), I(6)), ret(lst([N("h"), N("w"), N("u")]))))))]
 
 
 def counted_while(k, body, var="kk"):
@@ -1335,7 +1340,7 @@ def c12_families(tier, seed, ids=None, ck=None):
            ("expressions depth 2 x contexts", gens.context_sessions(e2, first_id=1000000), ("value",))]
     ed = gens.exprs_deep()
     if tier == "quick":
-        ed = ed[seed % 4::4]
+        ed = ed[seed % 5::5]      # six shapes per (operand, neighbour, operator): a stride coprime to 6 samples every shape with every seed
     out.append(("operands with >= 2 operators inside x operator depth 0-3 x contexts", gens.context_sessions(ed, first_id=1500000, ctx_filter={"top", "midblock", "fntail", "arg", "assign", "elem2", "forbody", "ifcond", "yield", "write"}), ("value",)))
     # negated comparisons over special values (NaN, infinities, signed zero): the shapes a compiler may fold, in every context
     nan, inf = bin_("/", Fl(0, 0), Fl(0, 0)), bin_("/", Fl(1, 0), Fl(0, 0))
